@@ -1,8 +1,10 @@
-(* Judge for C18.  case = (kind usage signed m n buffer obs nav), kind 1 packed, 2 zoned;
-   obs = estruct.unpack(clause, buffer), nav = the same through EBCDIC().nav(...) or (2). *)
+(* Judge for C18.  case = (kind usage signed m n buffer obs nav), kind 1 packed, 2 zoned, 3 binary;
+   obs = estruct.unpack(clause, buffer), nav = the same through EBCDIC().nav(...) or (2).
+   Binary (kind 3): the buffer has the width the digit count gives (2, 4, 8) or the one calcsize reports; the result fits when it is a number of the
+   declared scale within the picture's digits, not negative for a picture without S (Spec/FitsBinary.v fits_result). *)
 From Coq Require Import ZArith NArith List Bool.
 Import ListNotations.
-Require Import SR.Base.Sx SR.Base.Res SR.Base.Dec SR.Spec.Encode SR.Spec.Fits SR.Model.Estruct SR.Judge.JEstructCommon.
+Require Import SR.Base.Sx SR.Base.Res SR.Base.Dec SR.Spec.Encode SR.Spec.Fits SR.Spec.FitsBinary SR.Model.Estruct SR.Judge.JEstructCommon.
 Open Scope Z_scope.
 
 Definition fits_or_error (p : pic) (o : obs) : bool :=
@@ -10,6 +12,13 @@ Definition fits_or_error (p : pic) (o : obs) : bool :=
   | OErr _ => true
   | OVal (VDec d) => fits (p_int p) (p_frac p) d
   | OVal _ => false
+  | OBad => false
+  end.
+
+Definition fits_or_error_binary (p : pic) (o : obs) : bool :=
+  match o with
+  | OErr _ => true
+  | OVal r => fits_result p r
   | OBad => false
   end.
 
@@ -23,10 +32,16 @@ Definition judge (c : sx) : sx :=
   let digits := (p_int p + p_frac p)%nat in
   let width_ok :=
     if kind =? 1 then (length buffer =? spec_packed_width digits)%nat
+    else if kind =? 3 then
+      (* the decoder's width, or the width estruct.calcsize reports (it differs for signed items of 4 or 9 digits) *)
+      mem_spelling usage binary_spellings &&
+      (match spec_binary_width digits with Some w => (length buffer =? w)%nat | None => false end
+       || match calcsize usage p with Ok size => (N.of_nat (length buffer) =? size)%N | Err _ => false end)
     else (length buffer =? spec_display_width (p_signed p) digits)%nat in
-  if negb (width_ok && ((kind =? 1) || (kind =? 2)) && (1 <=? digits)%nat && forallb (fun b => (b <? 256)%N) buffer)
+  if negb (width_ok && ((kind =? 1) || (kind =? 2) || (kind =? 3)) && (1 <=? digits)%nat && forallb (fun b => (b <? 256)%N) buffer)
   then L [A 9; A 0; L [A 0]] else
   let m := unpack usage p buffer in
+  let fits_or_error := if kind =? 3 then fits_or_error_binary else fits_or_error in
   let good := fits_or_error p o && match nav with OBad => true | _ => fits_or_error p nav end in
   let agree := obs_matches o m && match nav with OBad => true | _ => obs_matches nav m end in
   (* a known finding excuses only its own wrong behaviour: the right scale and exactly one digit too many *)
@@ -37,9 +52,23 @@ Definition judge (c : sx) : sx :=
     | _ => false
     end in
   let pinned := one_extra o && match nav with OBad => true | _ => one_extra nav end in
+  (* binary: the pinned behaviour is the stored integer itself, returned as an int *)
+  let stored_int (x : obs) : bool :=
+    match x with
+    | OVal (VInt v) => Z.eqb v (signed_be (length buffer) buffer)
+    | OErr _ => true
+    | _ => false
+    end in
+  let pinned_binary := stored_int o && match nav with OBad => true | _ => stored_int nav end in
   let known :=
     if (kind =? 1) && pad_nibble_set p buffer && pinned then Some 1
     else if (kind =? 2) && sign_position_set p buffer && pinned then Some 2
+    else if (kind =? 3) && binary_exceeds_picture p buffer && pinned_binary then Some 3
     else None in
-  let branch := kind * 1000 + Z.of_nat (length buffer) * 10 + (match m with Ok _ => 1 | Err _ => 2 end) in
+  (* last digit: 1 value, 2 error; binary: 1 fits, 3 outside the picture's digits, 4 picture with fraction digits *)
+  let branch := kind * 1000 + Z.of_nat (length buffer) * 10 +
+    (match m with
+     | Ok _ => if (kind =? 3) && binary_exceeds_picture p buffer then (if (0 <? p_frac p)%nat then 4 else 3) else 1
+     | Err _ => 2
+     end) in
   verdict known good agree branch (L [sx_of_res sx_of_pyval m]).
